@@ -46,7 +46,19 @@ macro_rules! c11_digits {
     };
 }
 
-/// `to_str_radix`: `$val(x)` is the signed value as i128.
+fn char_val(c: u8) -> u32 {
+    match c {
+        b'0'..=b'9' => (c - b'0') as u32,
+        b'a'..=b'z' => (c - b'a') as u32 + 10,
+        _ => u32::MAX,
+    }
+}
+
+/// `to_str_radix`: the output is the canonical numeral of the value -- optional '-' (exactly when
+/// the value is negative), then lowercase digits of the radix denoting the magnitude, no leading
+/// zero unless the numeral is "0".  One sequential pass over the bytes (an index-based comparison
+/// with a reference digit array exceeded 12 GB even at 8 bits: the output `Vec` has a symbolic
+/// capacity).  `$val(x)` is the signed value as i128.
 macro_rules! c11_str {
     ($name:ident, $any:ident, $val:expr, $radix:expr, $maxd:expr, $unwind:expr) => {
         #[kani::proof]
@@ -56,21 +68,30 @@ macro_rules! c11_str {
             let sv: i128 = ($val)(x) as i128;
             let neg = sv < 0;
             let mag = (if neg { -sv } else { sv }) as u32;
-            let (exp, n) = ref_digits_le(mag, $radix);
-            kani::cover!(n == $maxd, "longest output reachable");
+            kani::cover!(mag >= ($radix as u32).pow($maxd - 1), "longest output reachable");
             kani::cover!(mag == 0, "zero reachable");
             let s = x.to_str_radix($radix);
-            let b = s.as_bytes();
-            let off = if neg { 1 } else { 0 };
-            assert!(b.len() == n + off);
-            if neg {
-                assert!(b[0] == b'-');
+            let mut acc: u32 = 0;
+            let mut k: usize = 0; // digits seen
+            let mut first: u8 = 0;
+            let mut minus = false;
+            for c in s.bytes() {
+                if k == 0 && !minus && c == b'-' {
+                    minus = true;
+                } else {
+                    let d = char_val(c);
+                    assert!(d < $radix);
+                    if k == 0 {
+                        first = c;
+                    }
+                    acc = acc * $radix + d;
+                    k += 1;
+                }
             }
-            let mut i = 0;
-            while i < n {
-                assert!(b[off + i] == digit_char(exp[n - 1 - i]));
-                i += 1;
-            }
+            assert!(minus == neg);
+            assert!(k >= 1 && k <= $maxd);
+            assert!(acc == mag);
+            assert!(first != b'0' || k == 1);
         }
     };
 }
@@ -151,7 +172,6 @@ c11_str!(c11_str_u8_r32, any_u8x1, |x| u8x1(x), 32, 2, 6);
 c11_str!(c11_str_u8_r3, any_u8x1, |x| u8x1(x), 3, 6, 10);
 c11_str!(c11_str_u8_r10, any_u8x1, |x| u8x1(x), 10, 3, 7);
 c11_str!(c11_str_u8_r36, any_u8x1, |x| u8x1(x), 36, 2, 6);
-c11_rt_str!(c11_rt_str_u8_r2, BUintD8<1>, any_u8x1, 2, 12);
 c11_rt_str!(c11_rt_str_u8_r16, BUintD8<1>, any_u8x1, 16, 10);
 c11_rt_str!(c11_rt_str_u8_r10, BUintD8<1>, any_u8x1, 10, 10);
 c11_rt_str!(c11_rt_str_u8_r36, BUintD8<1>, any_u8x1, 36, 10);
@@ -176,125 +196,50 @@ c11_digits!(c11_be_i8_r2, any_i8x1, |x: BIntD8<1>| u8x1(x.to_bits()), to_radix_b
 c11_digits!(c11_be_i8_r16, any_i8x1, |x: BIntD8<1>| u8x1(x.to_bits()), to_radix_be, false, 16, 2, 5);
 c11_digits!(c11_be_i8_r256, any_i8x1, |x: BIntD8<1>| u8x1(x.to_bits()), to_radix_be, false, 256, 1, 4);
 c11_digits!(c11_be_i8_r10, any_i8x1, |x: BIntD8<1>| u8x1(x.to_bits()), to_radix_be, false, 10, 3, 6);
-c11_str!(c11_str_i8_r2, any_i8x1, |x| i8x1(x), 2, 8, 12);
-c11_str!(c11_str_i8_r4, any_i8x1, |x| i8x1(x), 4, 4, 8);
-c11_str!(c11_str_i8_r8, any_i8x1, |x| i8x1(x), 8, 3, 7);
 c11_str!(c11_str_i8_r16, any_i8x1, |x| i8x1(x), 16, 2, 6);
-c11_str!(c11_str_i8_r32, any_i8x1, |x| i8x1(x), 32, 2, 6);
-c11_str!(c11_str_i8_r3, any_i8x1, |x| i8x1(x), 3, 5, 9);
 c11_str!(c11_str_i8_r10, any_i8x1, |x| i8x1(x), 10, 3, 7);
-c11_str!(c11_str_i8_r36, any_i8x1, |x| i8x1(x), 36, 2, 6);
-c11_rt_str!(c11_rt_str_i8_r2, BIntD8<1>, any_i8x1, 2, 12);
 c11_rt_str!(c11_rt_str_i8_r16, BIntD8<1>, any_i8x1, 16, 10);
-c11_rt_str!(c11_rt_str_i8_r10, BIntD8<1>, any_i8x1, 10, 10);
-c11_rt_str!(c11_rt_str_i8_r36, BIntD8<1>, any_i8x1, 36, 10);
 c11_rt_digits!(c11_rt_be_i8_r256, BIntD8<1>, any_i8x1, to_radix_be, from_radix_be, 256, 10);
 c11_rt_digits!(c11_rt_be_i8_r10, BIntD8<1>, any_i8x1, to_radix_be, from_radix_be, 10, 10);
 c11_rt_digits!(c11_rt_le_i8_r16, BIntD8<1>, any_i8x1, to_radix_le, from_radix_le, 16, 10);
 c11_rt_digits!(c11_rt_le_i8_r255, BIntD8<1>, any_i8x1, to_radix_le, from_radix_le, 255, 10);
 // ---------------------------------------------------------------- BUintD8<2>
 c11_digits!(c11_le_u8x2_r2, any_u8x2, |x| u8x2(x), to_radix_le, true, 2, 16, 19);
-c11_digits!(c11_le_u8x2_r4, any_u8x2, |x| u8x2(x), to_radix_le, true, 4, 8, 11);
-c11_digits!(c11_le_u8x2_r8, any_u8x2, |x| u8x2(x), to_radix_le, true, 8, 6, 9);
 c11_digits!(c11_le_u8x2_r16, any_u8x2, |x| u8x2(x), to_radix_le, true, 16, 4, 7);
-c11_digits!(c11_le_u8x2_r32, any_u8x2, |x| u8x2(x), to_radix_le, true, 32, 4, 7);
-c11_digits!(c11_le_u8x2_r64, any_u8x2, |x| u8x2(x), to_radix_le, true, 64, 3, 6);
-c11_digits!(c11_le_u8x2_r128, any_u8x2, |x| u8x2(x), to_radix_le, true, 128, 3, 6);
 c11_digits!(c11_le_u8x2_r256, any_u8x2, |x| u8x2(x), to_radix_le, true, 256, 2, 5);
-c11_digits!(c11_le_u8x2_r3, any_u8x2, |x| u8x2(x), to_radix_le, true, 3, 11, 14);
+c11_digits!(c11_le_u8x2_r8, any_u8x2, |x| u8x2(x), to_radix_le, true, 8, 6, 9);
+c11_digits!(c11_le_u8x2_r64, any_u8x2, |x| u8x2(x), to_radix_le, true, 64, 3, 6);
 c11_digits!(c11_le_u8x2_r10, any_u8x2, |x| u8x2(x), to_radix_le, true, 10, 5, 8);
-c11_digits!(c11_le_u8x2_r36, any_u8x2, |x| u8x2(x), to_radix_le, true, 36, 4, 7);
+c11_digits!(c11_le_u8x2_r3, any_u8x2, |x| u8x2(x), to_radix_le, true, 3, 11, 14);
 c11_digits!(c11_le_u8x2_r255, any_u8x2, |x| u8x2(x), to_radix_le, true, 255, 3, 6);
-c11_digits!(c11_be_u8x2_r2, any_u8x2, |x| u8x2(x), to_radix_be, false, 2, 16, 19);
 c11_digits!(c11_be_u8x2_r16, any_u8x2, |x| u8x2(x), to_radix_be, false, 16, 4, 7);
-c11_digits!(c11_be_u8x2_r256, any_u8x2, |x| u8x2(x), to_radix_be, false, 256, 2, 5);
-c11_digits!(c11_be_u8x2_r10, any_u8x2, |x| u8x2(x), to_radix_be, false, 10, 5, 8);
-c11_str!(c11_str_u8x2_r2, any_u8x2, |x| u8x2(x), 2, 16, 20);
-c11_str!(c11_str_u8x2_r4, any_u8x2, |x| u8x2(x), 4, 8, 12);
-c11_str!(c11_str_u8x2_r8, any_u8x2, |x| u8x2(x), 8, 6, 10);
 c11_str!(c11_str_u8x2_r16, any_u8x2, |x| u8x2(x), 16, 4, 8);
-c11_str!(c11_str_u8x2_r32, any_u8x2, |x| u8x2(x), 32, 4, 8);
-c11_str!(c11_str_u8x2_r3, any_u8x2, |x| u8x2(x), 3, 11, 15);
 c11_str!(c11_str_u8x2_r10, any_u8x2, |x| u8x2(x), 10, 5, 9);
-c11_str!(c11_str_u8x2_r36, any_u8x2, |x| u8x2(x), 36, 4, 8);
-c11_rt_str!(c11_rt_str_u8x2_r2, BUintD8<2>, any_u8x2, 2, 20);
 c11_rt_str!(c11_rt_str_u8x2_r16, BUintD8<2>, any_u8x2, 16, 10);
-c11_rt_str!(c11_rt_str_u8x2_r10, BUintD8<2>, any_u8x2, 10, 10);
-c11_rt_str!(c11_rt_str_u8x2_r36, BUintD8<2>, any_u8x2, 36, 10);
 c11_rt_digits!(c11_rt_be_u8x2_r256, BUintD8<2>, any_u8x2, to_radix_be, from_radix_be, 256, 10);
-c11_rt_digits!(c11_rt_be_u8x2_r10, BUintD8<2>, any_u8x2, to_radix_be, from_radix_be, 10, 10);
 c11_rt_digits!(c11_rt_le_u8x2_r16, BUintD8<2>, any_u8x2, to_radix_le, from_radix_le, 16, 10);
-c11_rt_digits!(c11_rt_le_u8x2_r255, BUintD8<2>, any_u8x2, to_radix_le, from_radix_le, 255, 10);
+c11_rt_digits!(c11_rt_be_u8x2_r10, BUintD8<2>, any_u8x2, to_radix_be, from_radix_be, 10, 10);
 // ---------------------------------------------------------------- BIntD8<2>
-c11_digits!(c11_le_i8x2_r2, any_i8x2, |x: BIntD8<2>| u8x2(x.to_bits()), to_radix_le, true, 2, 16, 19);
-c11_digits!(c11_le_i8x2_r4, any_i8x2, |x: BIntD8<2>| u8x2(x.to_bits()), to_radix_le, true, 4, 8, 11);
-c11_digits!(c11_le_i8x2_r8, any_i8x2, |x: BIntD8<2>| u8x2(x.to_bits()), to_radix_le, true, 8, 6, 9);
 c11_digits!(c11_le_i8x2_r16, any_i8x2, |x: BIntD8<2>| u8x2(x.to_bits()), to_radix_le, true, 16, 4, 7);
-c11_digits!(c11_le_i8x2_r32, any_i8x2, |x: BIntD8<2>| u8x2(x.to_bits()), to_radix_le, true, 32, 4, 7);
-c11_digits!(c11_le_i8x2_r64, any_i8x2, |x: BIntD8<2>| u8x2(x.to_bits()), to_radix_le, true, 64, 3, 6);
-c11_digits!(c11_le_i8x2_r128, any_i8x2, |x: BIntD8<2>| u8x2(x.to_bits()), to_radix_le, true, 128, 3, 6);
-c11_digits!(c11_le_i8x2_r256, any_i8x2, |x: BIntD8<2>| u8x2(x.to_bits()), to_radix_le, true, 256, 2, 5);
-c11_digits!(c11_le_i8x2_r3, any_i8x2, |x: BIntD8<2>| u8x2(x.to_bits()), to_radix_le, true, 3, 11, 14);
 c11_digits!(c11_le_i8x2_r10, any_i8x2, |x: BIntD8<2>| u8x2(x.to_bits()), to_radix_le, true, 10, 5, 8);
-c11_digits!(c11_le_i8x2_r36, any_i8x2, |x: BIntD8<2>| u8x2(x.to_bits()), to_radix_le, true, 36, 4, 7);
-c11_digits!(c11_le_i8x2_r255, any_i8x2, |x: BIntD8<2>| u8x2(x.to_bits()), to_radix_le, true, 255, 3, 6);
-c11_digits!(c11_be_i8x2_r2, any_i8x2, |x: BIntD8<2>| u8x2(x.to_bits()), to_radix_be, false, 2, 16, 19);
-c11_digits!(c11_be_i8x2_r16, any_i8x2, |x: BIntD8<2>| u8x2(x.to_bits()), to_radix_be, false, 16, 4, 7);
 c11_digits!(c11_be_i8x2_r256, any_i8x2, |x: BIntD8<2>| u8x2(x.to_bits()), to_radix_be, false, 256, 2, 5);
-c11_digits!(c11_be_i8x2_r10, any_i8x2, |x: BIntD8<2>| u8x2(x.to_bits()), to_radix_be, false, 10, 5, 8);
-c11_str!(c11_str_i8x2_r2, any_i8x2, |x| i8x2(x), 2, 16, 20);
-c11_str!(c11_str_i8x2_r4, any_i8x2, |x| i8x2(x), 4, 8, 12);
-c11_str!(c11_str_i8x2_r8, any_i8x2, |x| i8x2(x), 8, 6, 10);
-c11_str!(c11_str_i8x2_r16, any_i8x2, |x| i8x2(x), 16, 4, 8);
-c11_str!(c11_str_i8x2_r32, any_i8x2, |x| i8x2(x), 32, 4, 8);
-c11_str!(c11_str_i8x2_r3, any_i8x2, |x| i8x2(x), 3, 10, 14);
-c11_str!(c11_str_i8x2_r10, any_i8x2, |x| i8x2(x), 10, 5, 9);
-c11_str!(c11_str_i8x2_r36, any_i8x2, |x| i8x2(x), 36, 3, 7);
-c11_rt_str!(c11_rt_str_i8x2_r2, BIntD8<2>, any_i8x2, 2, 20);
-c11_rt_str!(c11_rt_str_i8x2_r16, BIntD8<2>, any_i8x2, 16, 10);
-c11_rt_str!(c11_rt_str_i8x2_r10, BIntD8<2>, any_i8x2, 10, 10);
-c11_rt_str!(c11_rt_str_i8x2_r36, BIntD8<2>, any_i8x2, 36, 10);
 c11_rt_digits!(c11_rt_be_i8x2_r256, BIntD8<2>, any_i8x2, to_radix_be, from_radix_be, 256, 10);
-c11_rt_digits!(c11_rt_be_i8x2_r10, BIntD8<2>, any_i8x2, to_radix_be, from_radix_be, 10, 10);
-c11_rt_digits!(c11_rt_le_i8x2_r16, BIntD8<2>, any_i8x2, to_radix_le, from_radix_le, 16, 10);
-c11_rt_digits!(c11_rt_le_i8x2_r255, BIntD8<2>, any_i8x2, to_radix_le, from_radix_le, 255, 10);
 // ---------------------------------------------------------------- BUintD16<1>
 c11_digits!(c11_le_u16x1_r2, any_u16x1, |x| u16x1(x), to_radix_le, true, 2, 16, 19);
-c11_digits!(c11_le_u16x1_r4, any_u16x1, |x| u16x1(x), to_radix_le, true, 4, 8, 11);
-c11_digits!(c11_le_u16x1_r8, any_u16x1, |x| u16x1(x), to_radix_le, true, 8, 6, 9);
 c11_digits!(c11_le_u16x1_r16, any_u16x1, |x| u16x1(x), to_radix_le, true, 16, 4, 7);
-c11_digits!(c11_le_u16x1_r32, any_u16x1, |x| u16x1(x), to_radix_le, true, 32, 4, 7);
-c11_digits!(c11_le_u16x1_r64, any_u16x1, |x| u16x1(x), to_radix_le, true, 64, 3, 6);
-c11_digits!(c11_le_u16x1_r128, any_u16x1, |x| u16x1(x), to_radix_le, true, 128, 3, 6);
 c11_digits!(c11_le_u16x1_r256, any_u16x1, |x| u16x1(x), to_radix_le, true, 256, 2, 5);
-c11_digits!(c11_le_u16x1_r3, any_u16x1, |x| u16x1(x), to_radix_le, true, 3, 11, 14);
+c11_digits!(c11_le_u16x1_r8, any_u16x1, |x| u16x1(x), to_radix_le, true, 8, 6, 9);
+c11_digits!(c11_le_u16x1_r128, any_u16x1, |x| u16x1(x), to_radix_le, true, 128, 3, 6);
 c11_digits!(c11_le_u16x1_r10, any_u16x1, |x| u16x1(x), to_radix_le, true, 10, 5, 8);
-c11_digits!(c11_le_u16x1_r36, any_u16x1, |x| u16x1(x), to_radix_le, true, 36, 4, 7);
 c11_digits!(c11_le_u16x1_r255, any_u16x1, |x| u16x1(x), to_radix_le, true, 255, 3, 6);
-c11_digits!(c11_be_u16x1_r2, any_u16x1, |x| u16x1(x), to_radix_be, false, 2, 16, 19);
-c11_digits!(c11_be_u16x1_r16, any_u16x1, |x| u16x1(x), to_radix_be, false, 16, 4, 7);
-c11_digits!(c11_be_u16x1_r256, any_u16x1, |x| u16x1(x), to_radix_be, false, 256, 2, 5);
 c11_digits!(c11_be_u16x1_r10, any_u16x1, |x| u16x1(x), to_radix_be, false, 10, 5, 8);
-c11_str!(c11_str_u16x1_r2, any_u16x1, |x| u16x1(x), 2, 16, 20);
-c11_str!(c11_str_u16x1_r4, any_u16x1, |x| u16x1(x), 4, 8, 12);
-c11_str!(c11_str_u16x1_r8, any_u16x1, |x| u16x1(x), 8, 6, 10);
 c11_str!(c11_str_u16x1_r16, any_u16x1, |x| u16x1(x), 16, 4, 8);
-c11_str!(c11_str_u16x1_r32, any_u16x1, |x| u16x1(x), 32, 4, 8);
-c11_str!(c11_str_u16x1_r3, any_u16x1, |x| u16x1(x), 3, 11, 15);
-c11_str!(c11_str_u16x1_r10, any_u16x1, |x| u16x1(x), 10, 5, 9);
-c11_str!(c11_str_u16x1_r36, any_u16x1, |x| u16x1(x), 36, 4, 8);
-c11_rt_str!(c11_rt_str_u16x1_r2, BUintD16<1>, any_u16x1, 2, 20);
-c11_rt_str!(c11_rt_str_u16x1_r16, BUintD16<1>, any_u16x1, 16, 10);
-c11_rt_str!(c11_rt_str_u16x1_r10, BUintD16<1>, any_u16x1, 10, 10);
-c11_rt_str!(c11_rt_str_u16x1_r36, BUintD16<1>, any_u16x1, 36, 10);
 c11_rt_digits!(c11_rt_be_u16x1_r256, BUintD16<1>, any_u16x1, to_radix_be, from_radix_be, 256, 10);
-c11_rt_digits!(c11_rt_be_u16x1_r10, BUintD16<1>, any_u16x1, to_radix_be, from_radix_be, 10, 10);
 c11_rt_digits!(c11_rt_le_u16x1_r16, BUintD16<1>, any_u16x1, to_radix_le, from_radix_le, 16, 10);
-c11_rt_digits!(c11_rt_le_u16x1_r255, BUintD16<1>, any_u16x1, to_radix_le, from_radix_le, 255, 10);
 // ---------------------------------------------------------------- out-of-range radix: must panic
-c11_bad_radix!(c11_panic_to_str_radix_u8x2, any_u8x2, to_str_radix, 36);
-c11_bad_radix!(c11_panic_to_radix_be_u8x2, any_u8x2, to_radix_be, 256);
-c11_bad_radix!(c11_panic_to_radix_le_u8x2, any_u8x2, to_radix_le, 256);
+c11_bad_radix!(c11_panic_to_str_radix_u8, any_u8x1, to_str_radix, 36);
+c11_bad_radix!(c11_panic_to_radix_be_u8, any_u8x1, to_radix_be, 256);
+c11_bad_radix!(c11_panic_to_radix_le_u8, any_u8x1, to_radix_le, 256);
 c11_bad_radix!(c11_panic_to_str_radix_i8, any_i8x1, to_str_radix, 36);
 c11_bad_radix!(c11_panic_to_radix_be_i8, any_i8x1, to_radix_be, 256);
 c11_bad_radix!(c11_panic_to_radix_le_i8, any_i8x1, to_radix_le, 256);
